@@ -112,7 +112,11 @@ func (p *principalInstance) doIntentRequestChecks(i Intent) error {
 		p.targetConnected = true
 		logrus.Info("principal: connected to target")
 	} else {
-		p.checkIntent(i, p.targetCert)
+		// Every request needs the principal's approval, not only the one
+		// checked during the target handshake.
+		if err := p.checkIntent(i, p.targetCert); err != nil {
+			return WriteIntentDenied(p.delegateConn, err.Error())
+		}
 	}
 
 	err := WriteIntentCommunication(p.targetConn, i)
